@@ -150,7 +150,8 @@ Section Plain.
         destruct (text_field_shape c u ok fs tv Hwt Hft) as [[Ex _]|[t [Ht [Hs _]]]].
         * unfold RoundtripGen.e_field. rewrite Ex. reflexivity.
         * assert (He : RoundtripGen.e_field c u (eobj n) tv (field_of fs tv) = e_data (v_format tv) (field_of fs tv)).
-          { unfold RoundtripGen.e_field. rewrite Hkt. inversion Hs; reflexivity. }
+          { unfold RoundtripGen.e_field, RoundtripGen.e_items, RoundtripGen.e_wrap.
+            rewrite Hkt, (wf_text_nowrap tv Hwt). inversion Hs; reflexivity. }
           rewrite He. pose proof (plain_data t _ _ Hs) as H.
           destruct (e_data (v_format tv) (field_of fs tv)) as [|k1 r]; [reflexivity|].
           destruct k1 as [atoms|? ? ?]; [|destruct H]. destruct r; [exact H|destruct H].
@@ -159,24 +160,42 @@ Section Plain.
         assert (Hall : forall e, In e (flat_map (fun var => RoundtripGen.e_field c u (eobj n) var (field_of fs var)) (get_element_vars m)) ->
                   (exists q a k, e = EElem q a k) /\ plain_tree e = true).
         { intros e He. apply in_flat_map in He as [var [Hv He]].
-          rewrite (e_field_occ c u ign m n var _ (Hev var Hv)) in He. apply in_map_iff in He as [y [<- Hy]].
-          destruct (elem_field_facts c u ok cl fs m Hmc n Hfe var (Hev var Hv)) as [Hok _].
-          rewrite Forall_forall in Hok. specialize (Hok y Hy).
-          pose proof (Hev var Hv) as [Hw Hin].
-          unfold item_ok in Hok. unfold ienode.
-          destruct (wf_elem_inv var Hw) as [_ [_ [[k [Hty [Hcl Htf]]]|[t [Hty [Hst Hcl]]]]]].
-          - rewrite Htf in *. destruct (fits_item_class c u ok _ var k y Hty Hok) as [cl' [fs' [-> Hfk]]].
-            cbn [RoundtripGen.e_item]. split.
-            + destruct n as [|n']; [discriminate Hfk|].
-              destruct (fits_inv c u ok py_isspace n' k _ Hfk) as [fs'' [mk [E [Hmk _]]]]. inversion E; subst.
-              cbn [RoundtripGen.eobj]. rewrite Hmk. eauto.
-            + apply (IH k); [|exact Hfk]. apply (Hnest _ var k Hin (or_introl eq_refl) Hcl).
-          - destruct (v_tokens_factory var) as [tf|] eqn:Etf.
-            + destruct (fits_tokens_inv c u ok py_isspace var tf y t Hty Hok) as [tp [l [-> [_ [Htk _]]]]].
-              split; [unfold RoundtripGen.e_prim; eauto|]. apply (plain_prim var t). apply vs_tokens. exact Htk.
-            + destruct (fits_item_simple c u ok _ var t y Hty Hst Hok) as [p [-> Hp]].
-              cbn [RoundtripGen.e_item]. split; [unfold RoundtripGen.e_prim; eauto|].
-              apply (plain_prim var t). apply vs_leaf. exact Hp. }
+          rewrite (e_field_occ c u ign m n var _ (Hev var Hv)) in He.
+          assert (Hitem : forall y, In y (occ var (field_of fs var)) ->
+                    (exists q a k, ienode c u ign n var y = EElem q a k) /\ plain_tree (ienode c u ign n var y) = true).
+          { intros y Hy.
+            destruct (elem_field_facts c u ok cl fs m Hmc n Hfe var (Hev var Hv)) as [Hok _].
+            rewrite Forall_forall in Hok. specialize (Hok y Hy).
+            pose proof (Hev var Hv) as [Hw Hin].
+            unfold item_ok in Hok. unfold ienode.
+            destruct (wf_elem_inv var Hw) as [_ [_ [[k [Hty [Hcl Htf]]]|[t [Hty [Hst Hcl]]]]]].
+            - rewrite Htf in *. destruct (fits_item_class c u ok _ var k y Hty Hok) as [cl' [fs' [-> Hfk]]].
+              cbn [RoundtripGen.e_item]. split.
+              + destruct n as [|n']; [discriminate Hfk|].
+                destruct (fits_inv c u ok py_isspace n' k _ Hfk) as [fs'' [mk [E [Hmk _]]]]. inversion E; subst.
+                cbn [RoundtripGen.eobj]. rewrite Hmk. eauto.
+              + apply (IH k); [|exact Hfk]. apply (Hnest _ var k Hin (or_introl eq_refl) Hcl).
+            - destruct (v_tokens_factory var) as [tf|] eqn:Etf.
+              + destruct (fits_tokens_inv c u ok py_isspace var tf y t Hty Hok) as [tp [l [-> [_ [Htk _]]]]].
+                split; [unfold RoundtripGen.e_prim; eauto|]. apply (plain_prim var t). apply vs_tokens. exact Htk.
+              + destruct (fits_item_simple c u ok _ var t y Hty Hst Hok) as [p [-> Hp]].
+                cbn [RoundtripGen.e_item]. split; [unfold RoundtripGen.e_prim; eauto|].
+                apply (plain_prim var t). apply vs_leaf. exact Hp. }
+          assert (Hitems : In e (map (ienode c u ign n var) (occ var (field_of fs var))) ->
+                    (exists q a k, e = EElem q a k) /\ plain_tree e = true).
+          { intros Hi. apply in_map_iff in Hi as [y [<- Hy]]. apply Hitem. exact Hy. }
+          destruct (field_of fs var); try destruct He;
+            (unfold RoundtripGen.e_wrap in He; destruct (v_wrapper_qname var) as [[|ch w]|];
+             [apply Hitems; exact He| |apply Hitems; exact He]).
+          all: destruct He as [<-|[]]; split; [eauto|].
+          all: cbn [plain_tree forallb map nodup_by andb].
+          all: destruct (map (ienode c u ign n var) (occ var _)) as [|k1 r] eqn:Em; [reflexivity|].
+          all: assert (Hk1 : (exists q a k, k1 = EElem q a k) /\ plain_tree k1 = true)
+            by (assert (Hin1 : In k1 (k1 :: r)) by (left; reflexivity); rewrite <- Em in Hin1;
+                apply in_map_iff in Hin1 as [y [<- Hy]]; apply Hitem; exact Hy).
+          all: destruct Hk1 as [[q1 [a1 [kk ->]]] _].
+          all: apply forallb_forall; intros e' He'; rewrite <- Em in He';
+            apply in_map_iff in He' as [y [<- Hy]]; apply Hitem; exact Hy. }
         destruct (flat_map _ (get_element_vars m)) as [|k1 r] eqn:Ek; [reflexivity|].
         destruct (Hall k1 (or_introl eq_refl)) as [[q1 [a1 [kk ->]]] _].
         apply forallb_forall. intros e He. apply Hall. exact He.
